@@ -22,7 +22,7 @@ func init() {
 		Rule: "fault enumeration over lifecycle scenarios on an in-memory transport: configurations {tracking, client pings 0/20ms, plain/context-aware dialer, Connect/ConnectContext} x end causes {Close from 1, 3, 8 goroutines, " +
 			"EOF, read error, write error, context cancellation} x every unordered pair of causes fired from one barrier x traffic {idle, inbound backlog, outbound backlog by handler or user goroutines, handler on a gate / blocked in a send} " +
 			"x server {reading, not reading, bursts} x second Connect while connected (idle/busy), plus failing connects (no server, dial refused, refused-then-retry) and Close on an unconnected client. Counters and Connected() samples taken inside " +
-			"REGISTER/CONNECTED/DISCONNECTED handlers and return values are judged at quiescence (goroutine census shows no library goroutine). Poll mode: Connected() sampled 40k..400k times inside REGISTER/CONNECTED and by a user goroutine while 1..3 goroutines are being refused a second Connect. Loopback mode: event counts over real TCP sockets (see C07). distinct_nontrivial = distinct (cause set, library goroutines blocked on a queue/gate/socket at teardown) fingerprints.",
+			"REGISTER/CONNECTED/DISCONNECTED handlers and return values are judged at quiescence (goroutine census shows no library goroutine). Poll mode: Connected() sampled 40k..400k times inside REGISTER/CONNECTED and by a user goroutine while 1..3 goroutines are being refused a second Connect. Loopback mode: event counts over real TCP sockets (see C07). Failing-connect kinds also: the connect context ending during a TLS handshake (events must agree with Connect's result) and 2..5 simultaneous Connect calls on an unconnected client (one connection, the rest refused); supervised-reconnect rounds with DISCONNECTED counts. distinct_nontrivial = distinct (cause set, library goroutines blocked on a queue/gate/socket at teardown) fingerprints.",
 		Assumptions: []string{
 			"when the reconnect is issued from inside the DISCONNECTED handler, a coincident public Close is not generated (it may legitimately close the new connection)",
 			"a disconnect that never completes is reported under C07; here it makes the scenario inconclusive",
